@@ -656,3 +656,113 @@ func dumpAliveFromTables(p *Prog, r *Reporter) {
 		r.Anchor("DumpEntities: a uint32 element written into the alive list")
 	}
 }
+
+// ---------- the registered-filter lookup comes before the lock ----------
+
+// lookupBeforeLock: the lookup of a registered filter's entry panics for a stale handle (an illegal use that callers may
+// recover from). It is never made while the function holds a lock bit it has just taken: otherwise the recovered
+// panic leaves the world locked with no query open.
+func lookupBeforeLock(p *Prog, r *Reporter) {
+	// the panicking lookup: methods of Cache with a *CachedFilter parameter and an explicit panic
+	lookups := map[*ssa.Function]bool{}
+	for _, fn := range p.Funcs {
+		if typeName(recvType(fn)) != "Cache" || fn.Blocks == nil {
+			continue
+		}
+		hasHandle := false
+		for _, pr := range fn.Params[1:] {
+			if pt, ok := pr.Type().Underlying().(*types.Pointer); ok && typeName(pt.Elem()) == "CachedFilter" {
+				hasHandle = true
+			}
+		}
+		if !hasHandle {
+			continue
+		}
+		for _, b := range fn.Blocks {
+			if _, ok := b.Instrs[len(b.Instrs)-1].(*ssa.Panic); ok {
+				lookups[fn] = true
+			}
+		}
+	}
+	if len(lookups) == 0 {
+		r.Anchor("Cache: a lookup by *CachedFilter that panics for a stale handle")
+		return
+	}
+	var reachesLookup func(fn *ssa.Function, d int, seen map[*ssa.Function]bool) bool
+	reachesLookup = func(fn *ssa.Function, d int, seen map[*ssa.Function]bool) bool {
+		if fn == nil || d > 3 || seen[fn] {
+			return false
+		}
+		seen[fn] = true
+		if lookups[fn] {
+			return true
+		}
+		for _, site := range callsIn(fn) {
+			if sc := site.Common().StaticCallee(); sc != nil && p.isArche(sc) && reachesLookup(sc, d+1, seen) {
+				return true
+			}
+		}
+		return false
+	}
+	n := 0
+	for _, fn := range p.Funcs {
+		if !p.isArche(fn) {
+			continue
+		}
+		for _, b := range fn.Blocks {
+			for i, ins := range b.Instrs {
+				c, ok := ins.(*ssa.Call)
+				if !ok {
+					continue
+				}
+				sc := c.Common().StaticCallee()
+				if sc == nil || cname(sc) != "lock" || typeName(recvType(sc)) != "World" {
+					continue
+				}
+				n++
+				// instructions that may execute while the bit is held: forward from the call until it is released or handed over
+				bad := token.NoPos
+				what := ""
+				seenB := map[*ssa.BasicBlock]bool{}
+				var walk func(x *ssa.BasicBlock, from int)
+				walk = func(x *ssa.BasicBlock, from int) {
+					for j := from; j < len(x.Instrs); j++ {
+						site, ok := x.Instrs[j].(ssa.CallInstruction)
+						if !ok {
+							continue
+						}
+						passes := false
+						for _, a := range site.Common().Args {
+							if a == c {
+								passes = true
+							}
+						}
+						if passes {
+							return // released (unlock) or handed to a query
+						}
+						if cal := site.Common().StaticCallee(); cal != nil && p.isArche(cal) && reachesLookup(cal, 0, map[*ssa.Function]bool{}) {
+							bad, what = site.Pos(), cname(cal)
+							return
+						}
+					}
+					for _, s := range x.Succs {
+						if !seenB[s] {
+							seenB[s] = true
+							walk(s, 0)
+						}
+					}
+				}
+				walk(b, i+1)
+				construct := fmt.Sprintf("lock bit taken #%d", n)
+				if bad == token.NoPos {
+					r.OK(p.FuncName(fn), construct, p.Pos(c.Pos()), "no registered-filter lookup is made while the bit is held and not yet handed to a query")
+				} else {
+					r.Bad(p.FuncName(fn), construct, p.Pos(c.Pos()), "with the lock bit already taken, "+what+" (at "+p.Pos(bad)+") looks up the registered filter's entry, which panics for a stale handle: after the caller recovers, the world is locked although no query is open")
+				}
+			}
+		}
+	}
+	if n == 0 {
+		r.Anchor("a call of World.lock")
+	}
+}
